@@ -235,6 +235,10 @@ func (f *FuncCtx) exprMulti(e ast.Expr, env *Env) []Val {
 		if t == nil {
 			t = f.resolveType(e.Type)
 		}
+		if t == nil {
+			f.fail("cannot resolve type in assertion %s", exprStr(e))
+			return []Val{x, f.boolVal("true")}
+		}
 		return []Val{f.typeAssert(x, t), f.isType(x, t)}
 	case *ast.KeyValueExpr:
 		return f.exprMulti(e.Value, env)
@@ -617,6 +621,9 @@ func (f *FuncCtx) indexVal(x Val, idx ast.Expr, env *Env, at ast.Node) Val {
 	case *types.Array:
 		i := f.coerce(f.expr(idx, env), types.Typ[types.Int])
 		f.safety("index", env, fmt.Sprintf("(and (<= 0 %s) (< %s %d))", i.T, i.T, u.Len()), at)
+		if _, ok := byteArray(u); ok {
+			return Val{T: fmt.Sprintf("(at_%s %s %s)", f.S.SortOf(x.Typ), x.T, i.T), Typ: u.Elem()}
+		}
 		return Val{T: fmt.Sprintf("(select %s %s)", x.T, i.T), Typ: u.Elem()}
 	case *types.Pointer:
 		if a, ok := u.Elem().Underlying().(*types.Array); ok {
@@ -663,6 +670,14 @@ func (f *FuncCtx) sliceExpr(e *ast.SliceExpr, env *Env) Val {
 	case *types.Slice:
 		elem, arr, ln = u.Elem(), fmt.Sprintf("(s_arr %s)", x.T), fmt.Sprintf("(s_len %s)", x.T)
 	case *types.Array:
+		if _, ok := byteArray(u); ok {
+			srt := f.S.SortOf(x.Typ)
+			if e.Low == nil && e.High == nil {
+				return Val{T: fmt.Sprintf("(slice_%s %s)", srt, x.T), Typ: types.NewSlice(u.Elem())}
+			}
+			f.note("partial slice of a byte array abstracted")
+			return f.freshVal(types.NewSlice(u.Elem()), "bsl")
+		}
 		elem, arr, ln = u.Elem(), x.T, fmt.Sprint(u.Len())
 	case *types.Basic:
 		// string slicing: opaque
@@ -777,6 +792,23 @@ func (f *FuncCtx) compositeLit(e *ast.CompositeLit, env *Env, addr bool) Val {
 		}
 		v = Val{T: fmt.Sprintf("(mk_slice %s %d false)", arr, n), Typ: t}
 	case *types.Array:
+		if _, ok := byteArray(u); ok {
+			if len(e.Elts) == 0 {
+				v = Val{T: f.S.Zero(t), Typ: t}
+				break
+			}
+			srt := f.S.SortOf(t)
+			nv := f.freshVal(t, "barr")
+			for i, el := range e.Elts {
+				if kv, ok := el.(*ast.KeyValueExpr); ok {
+					el = kv.Value
+				}
+				ev := f.coerce(f.exprIn(el, env, u.Elem()), u.Elem())
+				f.emit(fmt.Sprintf("(assert (= (at_%s %s %d) %s))", srt, nv.T, i, ev.T))
+			}
+			v = nv
+			break
+		}
 		es := f.S.SortOf(u.Elem())
 		arr := f.S.constArr("Int", es, f.S.Zero(u.Elem()))
 		for i, el := range e.Elts {
@@ -1062,6 +1094,9 @@ func (f *FuncCtx) binary(e *ast.BinaryExpr, env *Env) Val {
 		}
 		if bt, ok := t.(*types.Basic); ok && bt.Info()&types.IsUntyped != 0 {
 			t = types.Default(t)
+		}
+		if t == nil {
+			t = types.Typ[types.Int]
 		}
 		if e.Op != token.SHL && e.Op != token.SHR {
 			a, b = f.coerce(a, t), f.coerce(b, t)
